@@ -458,8 +458,8 @@ def run_case(case):
 def gates(obs, tier):
     calls = obs.get("calls", {})
     return {
-        "conversion_pipeline_reached": calls.get("volume_to_precomputed", 0) > 0
-        and calls.get("chunk_transformer", 0) > 0,
+        "conversion_pipeline_reached": calls.get("volume_file_to_precomputed", 0) > 0
+        and obs.get("calls_by_module", {}).get("data_types", 0) > 0,
         "all_stored_dtypes": len(obs.get("stored", {})) == len(STORED) + 1,
         "all_target_types": len(obs.get("targets", {})) == len(TARGETS),
         "all_storage_layouts": len(obs.get("storage", {})) == 5,
